@@ -396,7 +396,16 @@ pub fn build(ver: u8, v: &Value) -> Vec<u8> {
     let t = gs(v, "t", "");
     match t {
         "raw" => hex_decode(gs(v, "hex", "")),
-        "payload" => vec![gi(v, "fill", 0x61) as u8; gi(v, "n", 0) as usize],
+        "payload" => {
+            let n = gi(v, "n", 0) as usize;
+            if gi(v, "pat", 0) == 1 {
+                // position pattern: byte at payload offset i is i % 251
+                let off = gi(v, "off", 0) as usize;
+                (off..off + n).map(|i| (i % 251) as u8).collect()
+            } else {
+                vec![gi(v, "fill", 0x61) as u8; n]
+            }
+        }
         "connect" => {
             let level = gi(v, "level", if v5 { 5 } else { 4 }) as u8;
             let mut b = Vec::new();
@@ -439,7 +448,11 @@ pub fn build(ver: u8, v: &Value) -> Vec<u8> {
             let send = gi(v, "send", plen as i64) as usize;
             let fill = gi(v, "fill", 0x61) as u8;
             let mut out = frame(b0, b, plen);
-            out.extend(std::iter::repeat_n(fill, send.min(plen)));
+            if gi(v, "pat", 0) == 1 {
+                out.extend((0..send.min(plen)).map(|i| (i % 251) as u8));
+            } else {
+                out.extend(std::iter::repeat_n(fill, send.min(plen)));
+            }
             out
         }
         "puback" | "pubrec" | "pubrel" | "pubcomp" => {
